@@ -291,7 +291,7 @@ class G:
         book = book or []
         recipes = [n for n, _ in book]
         bigdays = days is None and r.random() < 0.04
-        days = (r.randint(14, 40) if bigdays else r.randint(1, 6)) if days is None else days
+        days = (r.choice([r.randint(14, 40), r.randint(14, 40), 100, 128, 513, 600]) if bigdays else r.randint(1, 6)) if days is None else days
         bigday = max_entries == 8 and r.random() < 0.06
         extra = []
         for _ in range(r.randint(15, 45) if bigday else r.randint(1, 4)):
